@@ -19,8 +19,10 @@ def seq_check(check, level, assumptions, parts=None, nshards=None, timeout=None,
             return r.returncode
         jobs = []
         ps = parts(tier) if parts else [""]
+        # graceful wall-clock budget inside the workers (exhaustive=false when hit), well below the hard timeout
+        budget = {"quick": 600, "thorough": 2400}[tier]
         for p in ps:
-            jobs += V.sharded(binary, check, tier, seed, nshards or V.NCPU, part=p)
+            jobs += V.sharded(binary, check, tier, seed, nshards or V.NCPU, part=p, extra=("-budget", str(budget)))
         if env:
             e = dict(os.environ)
             e.update(env(tier))
@@ -68,12 +70,18 @@ def sched_check(level, assumptions, budget=None, shards=None, race_pass=None):
                 V.log(r.stdout[-3000:] + r.stderr[-3000:])
                 raise V.HarnessError("determinism self-test failed for scenario " + n)
         nsh = (shards or {}).get(tier, V.NCPU)
+        # per-worker wall-clock budget (graceful: exhaustive=false when hit).  Thorough: the whole check is planned
+        # for about 40 minutes whatever the number of scenarios.
+        njobs = len(names) * nsh
+        per_job = budget[tier]
+        if tier == "thorough":
+            per_job = max(300, min(budget[tier], 2400 * V.NCPU // max(1, njobs)))
         jobs = []
         for n in names:
             for i in range(nsh):
                 jobs.append({"cmd": [binary, "explore", "-prop", prop, "-scenario", n, "-tier", tier, "-shard", str(i), "-nshards", str(nsh),
-                                     "-seed", str(seed), "-budget", str(budget[tier])], "name": "%s_%d" % (n, i)})
-        results, failures = V.run_jobs(jobs, os.path.join(V.SCRATCH, "work", prop), budget[tier] * 3 + 120)
+                                     "-seed", str(seed), "-budget", str(per_job)], "name": "%s_%d" % (n, i)})
+        results, failures = V.run_jobs(jobs, os.path.join(V.SCRATCH, "work", prop), per_job * 3 + 120)
         merged = V.merge(results)
         extra = None
         if race_pass:
